@@ -34,3 +34,21 @@ package base
 //@ iface StatNode.AddCount(event, count)
 //@   ensures gAdded == upd(old(gAdded), dynptr(this), upd(sel(old(gAdded), dynptr(this)), event, sel(sel(old(gAdded), dynptr(this)), event) + count))
 //@   modifies gAdded
+
+// ---- C08: a view (sampleCount, intervalInMs) tiles an array (parentSampleCount, parentIntervalInMs)
+//@ spec func wellFormed(n, I) = I != 0 && n != 0 && I % n == 0
+//@ spec func tiles(n, I, pn, pI) = wellFormed(n, I) && wellFormed(pn, pI) && pI % I == 0 && (I / n) % (pI / pn) == 0
+
+//@ spec func errorsDistinct() = IllegalStatisticParamsError != nil && IllegalGlobalStatisticParamsError != nil && GlobalStatisticNonReusableError != nil && IllegalStatisticParamsError != GlobalStatisticNonReusableError && IllegalGlobalStatisticParamsError != GlobalStatisticNonReusableError
+//@ func CheckValidityForStatistic(sampleCount, intervalInMs) err
+//@   props C08
+//@   requires errorsDistinct()
+//@   ensures[iff] err == nil <==> wellFormed(sampleCount, intervalInMs)
+//@   modifies nothing
+
+//@ func CheckValidityForReuseStatistic(sampleCount, intervalInMs, parentSampleCount, parentIntervalInMs) err
+//@   props C08
+//@   requires errorsDistinct()
+//@   ensures[iff] err == nil <==> tiles(sampleCount, intervalInMs, parentSampleCount, parentIntervalInMs)
+//@   ensures[non-reusable] err == GlobalStatisticNonReusableError ==> wellFormed(sampleCount, intervalInMs) && wellFormed(parentSampleCount, parentIntervalInMs)
+//@   modifies nothing
